@@ -64,14 +64,14 @@ package dict
 //@ end
 //@
 //@ func (*Parser).FindCommand(p, appid, code) (cmd, err)
-//@   property C17
+//@   property C09 C17
 //@   requires p != nil && pwf(p)
 //@   modifies
 //@   ensures found: err == nil <==> cmd != nil
-//@   ensures [C17] exact: has(p.command, mk(codeIdx, appid, code, 4294967295)) ==> err == nil && cmd == p.command[mk(codeIdx, appid, code, 4294967295)]
-//@   ensures [C17] base_fallback: !has(p.command, mk(codeIdx, appid, code, 4294967295)) && has(p.command, mk(codeIdx, 0, code, 4294967295)) ==>
+//@   ensures [C09 C17] exact: has(p.command, mk(codeIdx, appid, code, 4294967295)) ==> err == nil && cmd == p.command[mk(codeIdx, appid, code, 4294967295)]
+//@   ensures [C09 C17] base_fallback: !has(p.command, mk(codeIdx, appid, code, 4294967295)) && has(p.command, mk(codeIdx, 0, code, 4294967295)) ==>
 //@           err == nil && cmd == p.command[mk(codeIdx, 0, code, 4294967295)]
-//@   ensures [C17] none: !has(p.command, mk(codeIdx, appid, code, 4294967295)) && !has(p.command, mk(codeIdx, 0, code, 4294967295)) ==> err != nil && cmd == nil
+//@   ensures [C09 C17] none: !has(p.command, mk(codeIdx, appid, code, 4294967295)) && !has(p.command, mk(codeIdx, 0, code, 4294967295)) ==> err != nil && cmd == nil
 //@ end
 //@
 //@ # does the dictionary support application id 'code' with the given type name ("" = any)
